@@ -223,8 +223,15 @@ func subC18Events(arg string) string {
 	// the history
 	var hist []c18Log
 	seenData := map[string]bool{}
+	perType := atoi(a["pertype"]) // > 0: that many logs of EVERY event type (each type has its own lane per endpoint)
+	if perType > 0 {
+		nLogs = perType * len(c18Types)
+	}
 	for i := 0; i < nLogs; i++ {
 		t := c18Types[rng.Intn(len(c18Types))]
+		if perType > 0 {
+			t = c18Types[i%len(c18Types)]
+		}
 		ab, addr := proxyABI, ethProxy
 		if t.cr {
 			ab, addr = crABI, ethCR
@@ -327,6 +334,14 @@ func subC18Events(arg string) string {
 		}(e)
 	}
 	wg.Wait()
+	if v, ok := a["disc"]; ok && atoi(v) >= 0 && atoi(v) < nEp {
+		// nobody has read the event channel yet: the subscription goroutines of every endpoint sit on
+		// logs they cannot hand over.  The node disconnects one endpoint in that state (what onchainLoop
+		// does on an error, what the operator's "disconnect" does); the others carry every log
+		time.Sleep(30 * time.Millisecond)
+		rig.adaptor.DisconnectWs(atoi(v))
+		time.Sleep(30 * time.Millisecond)
+	}
 	// collect until quiet
 	var got []interface{}
 	quiet := time.NewTimer(400 * time.Millisecond)
@@ -443,7 +458,10 @@ func genC18(rng *hx.Rng, tier string, w *hx.Writer) error {
 		if it >= 6 && it%4 == 3 && nEp > 1 {
 			arg += fmt.Sprintf(",slow=%d", rng.Intn(nEp))
 		}
-		c := hx.Case{Entry: "firstevent", Op: 1, Tags: []string{"events", fmt.Sprintf("endpoints:%d", nEp), fmt.Sprintf("drop:%v", drop >= 0), "nt"}}
+		if it >= 6 && it%4 == 2 && nEp > 1 && drop < 0 {
+			arg = fmt.Sprintf("endpoints=%d,logs=%d,seed=%d,drop=-1,early=0,disc=%d,pertype=5", nEp, 14+rng.Intn(10), it+1, rng.Intn(nEp))
+		}
+		c := hx.Case{Entry: "firstevent", Op: 1, Args: hx.L(hx.L()), Tags: []string{"events", fmt.Sprintf("endpoints:%d", nEp), fmt.Sprintf("drop:%v", drop >= 0), "nt"}}
 		// the slow-endpoint scenarios judge wall-clock bounds: a failure is confirmed by a run on its own
 		job := &c12job{sub: "c18-events", arg: arg, timeout: 60 * time.Second, group: "event-subscription", solo: strings.Contains(arg, "slow=")}
 		job.c = c
